@@ -33,6 +33,45 @@ TOPO_POOL = [
 ]
 
 
+# Motifs whose edges carry MORE THAN ONE topology name under one motif id (gcmpy's custom-motif generator names the rim
+# of a diamond 'diamond-outer' and its chord 'diamond-inner'): a main part plus chord parts on vertex positions of the
+# main part.  In a spec they are two entries of the topology list (two annotation columns): the main entry carries
+# chord_topo / chord_pairs, the chord entry is part_only (never placed on its own).
+COMPOSITES = [
+    {"main": {"kind": "cycle", "size": 4, "name": "diamond-outer"}, "chord": "diamond-inner", "pairs": [[0, 2]]},
+    {"main": {"kind": "cycle", "size": 4, "name": "k4-rim"}, "chord": "k4-diagonal", "pairs": [[0, 2], [1, 3]]},
+    {"main": {"kind": "cycle", "size": 5, "name": "house-wall"}, "chord": "house-beam", "pairs": [[1, 4]]},
+    {"main": {"kind": "clique", "size": 3, "name": "kite-body"}, "chord": "kite-tail", "pairs": [[0, 3]], "extra_verts": 1},
+]
+
+
+def add_composite(prng, topos):
+    """Append one multi-name motif type (two topology entries) to a topology list."""
+    c = prng.choice(COMPOSITES)
+    if any(t["name"] in (c["main"]["name"], c["chord"]) for t in topos):
+        return topos
+    main = dict(c["main"])
+    main["chord_topo"] = len(topos) + 1
+    main["chord_pairs"] = [list(p) for p in c["pairs"]]
+    if c.get("extra_verts"):
+        main["extra_verts"] = c["extra_verts"]          # vertices of the motif beyond the main part (the kite's tail end)
+    return topos + [main, {"kind": "clique", "size": 2, "name": c["chord"], "part_only": True}]
+
+
+def motif_size(t):
+    return t["size"] + t.get("extra_verts", 0)
+
+
+def parts(spec, m):
+    """[(topology index, topology entry, vertices of that part)] of one motif instance."""
+    t = spec["topos"][m["topo"]]
+    out = [(m["topo"], t, list(m["verts"][:t["size"]]))]
+    for a, b in t.get("chord_pairs", ()):
+        k = t["chord_topo"]
+        out.append((k, spec["topos"][k], [m["verts"][a], m["verts"][b]]))
+    return out
+
+
 def motif_edges(kind, verts):
     if kind == "clique":
         return list(combinations(verts, 2))
@@ -45,15 +84,16 @@ def gen_clean_spec(prng, n, topos, n_motifs, tries=30):
     """Place motifs on distinct vertices, edge-disjoint, simple."""
     used = set()
     motifs = []
+    spec0 = {"topos": topos}
     for _ in range(n_motifs):
         k = prng.randrange(len(topos))
         t = topos[k]
-        if t["size"] > n:
+        if motif_size(t) > n or t.get("part_only"):
             continue
         for _ in range(tries):
-            vs = prng.sample(range(n), t["size"])
-            es = [frozenset(e) for e in motif_edges(t["kind"], vs)]
-            if not any(e in used for e in es):
+            vs = prng.sample(range(n), motif_size(t))
+            es = [frozenset(e) for _, pt, pv in parts(spec0, {"topo": k, "verts": vs}) for e in motif_edges(pt["kind"], pv)]
+            if len(set(es)) == len(es) and not any(e in used for e in es):
                 used.update(es)
                 motifs.append({"topo": k, "verts": vs})
                 break
@@ -64,26 +104,48 @@ def spec_jds(spec):
     n, nt = spec["n"], len(spec["topos"])
     jds = [[0] * nt for _ in range(n)]
     for m in spec["motifs"]:
-        for v in m["verts"]:
-            jds[v][m["topo"]] += 1
+        for k, _, pv in parts(spec, m):
+            for v in pv:
+                jds[v][k] += 1
     return [tuple(r) for r in jds]
 
 
 def build_network(spec):
     """Network object from a spec, through the library's own edge-list -> network conversion."""
     el = LightWeightEdgeList()
-    el.joint_degrees = spec_jds(spec)
-    if spec.get("jd_type") == "list":
-        el.joint_degrees = [list(r) for r in el.joint_degrees]        # as a JSON / hand-built jds would be stored
+    el.joint_degrees = retyped(spec_jds(spec), spec.get("jd_type"))
     for mid, m in enumerate(spec["motifs"]):
-        t = spec["topos"][m["topo"]]
-        for e in motif_edges(t["kind"], m["verts"]):
-            el.edge_list.append(tuple(e))
-            el.topologies.append(t["name"])
-            el.motif_id.append(mid)
+        for _, t, pv in parts(spec, m):
+            for e in motif_edges(t["kind"], pv):
+                el.edge_list.append(tuple(e))
+                el.topologies.append(t["name"])
+                el.motif_id.append(mid)
     net = EdgeListToNetwork.convert(el)
     decorate(net.G, spec.get("extra_attrs"))
     return net
+
+
+def retyped(rows, jd_type):
+    """Joint degree rows in the representation the scenario asks for: tuples (default), lists (as a JSON / hand-built
+    sequence would be stored), or BOTH in one sequence (rows patched or loaded from different sources): 'mixed2' stores
+    every odd vertex as a list, 'mixed3' every third."""
+    if jd_type == "list":
+        return [list(r) for r in rows]
+    if jd_type in ("mixed2", "mixed3"):
+        k = 2 if jd_type == "mixed2" else 3
+        return [list(r) if v % k == 1 else tuple(r) for v, r in enumerate(rows)]
+    return rows
+
+
+def retype_annotations(G, jd_type):
+    """Same, applied to the vertex annotations of an existing network (generator-built networks)."""
+    if not jd_type:
+        return
+    for v in G.nodes():
+        if JD in G.nodes[v]:
+            k = {"list": 1, "mixed2": 2, "mixed3": 3}[jd_type]
+            r = G.nodes[v][JD]
+            G.nodes[v][JD] = list(r) if (k == 1 or (isinstance(v, int) and v % k == 1)) else tuple(r)
 
 
 def decorate(G, extra):
